@@ -291,7 +291,15 @@ def main():
         elif not okm:
             res.violation("model does not build", {"log": outm[-2000:]}, found=False)
         else:
-            props.run(pid, res)
+            try:
+                props.run(pid, res)
+            except Exception:
+                # an exception inside the exploration (a harness process that died, a timing-dependent read) is retried once
+                # from scratch before it is reported; both tracebacks are logged
+                with open(os.path.join(BUILD, "crash.log"), "a") as f:
+                    f.write("== %s %s (first attempt, retried)\n%s\n" % (time.strftime("%Y-%m-%d %H:%M:%S"), pid, traceback.format_exc()))
+                res.violations, res.known = [], []
+                props.run(pid, res)
         if res.proof_broken:
             found_input = any(v["found"] for v in res.violations)
             if not found_input:
